@@ -416,7 +416,7 @@ def run(seed, tier):
                         if bad:
                             fail[0] = 'after update %d: %s' % (info['i'] + 1, bad)
                     if info['called'] and info['i'] % 7 == 0:
-                        mterms.append(adaptm.coq_case(kind, b, a, info['ar'], info['ars'], info['x']))
+                        mterms.append(adaptm.coq_case(kind, b, a, info['ar'], info['ars'], info['x'], accepted=info['accepted']))
                         mmeta.append(dict(desc, step=info['i']))
                 adaptm.drive(name, T, 1, 1, hist, hk, rng, on_mstep)
                 out.count('matrix_history_' + hk)
